@@ -239,3 +239,137 @@ def confirm(prop, v):
             if status == 'not_reproduced': status = 'unreachable'
         elif bad: status = 'reproduced'
     return status, detail
+
+
+# ---- embedded variant: the modelled slots sit at symbolic positions of a long arena (positions up to 2^17)
+
+def run_lookup_embedded_job(prog, job):
+    """get / Index / get_node_id / get_node_id_at with the N modelled slots at symbolic positions at_1 < ... < at_N of an arena of
+    symbolic length <= 2^17 (other slots not modelled): the queried id / position denotes one of the modelled slots or lies beyond
+    the end.  Covers lookups whose result depends on absolute slot numbers (truncation of a position, pointer-offset arithmetic)."""
+    t0 = time.time()
+    N, size = job['N'], job['size']
+    fmtmodel.install()
+    prefixes = tuple(p + '.' for p in job['props'])
+    eng = Engine(prog, max_steps=20000)
+    A = SymArena(N)
+    for c in A.inv(): eng.solver.add(c)
+    for c in A.embed(iters.EMBED_MAXLEN): eng.solver.add(c)
+    iters.UNMAP = None
+    eng.havoc_elem = A.havoc_node
+    iters.PREFER = [z3.ULT(A.at[-1], 300), z3.ULE(A.vlen, A.at[-1] + 2)]
+    st = State()
+    acell = st.new_cell(A.value(embedded=True))
+    pre = View(A.value())
+    aref = Ref(acell, ())
+    res = new_result(job)
+    base = z3.BitVec('vecbase', 64)
+    eng.node_size = size
+    eng.solver.add(z3.UGE(base, 8), z3.ULT(base, BV64(1 << 62)))
+    def addr_of(st_, ref):
+        if ref.cell == acell and len(ref.path) == 2 and ref.path[0] == ('f', 0) and ref.path[1][0] == 'i':
+            return base + bv(ref.path[1][1].v, 'usize') * size
+        raise Unsupported('address of %r' % (ref,))
+    eng.addr_of = addr_of
+    k = z3.BitVec('k', 64)                      # abstract slot number 1..N of the queried node
+    beyond = z3.Bool('beyond')                  # or: a position beyond the end
+    far = z3.BitVec('far', 64)
+    eng.solver.add(z3.UGE(k, 1), z3.ULE(k, N), z3.UGT(far, A.vlen), far != 0)
+    qreal = z3.If(beyond, far, A.to_real(k))    # 1-based real position
+    qs = z3.BitVec('qs', 16)
+    if eng.solver.check() != z3.sat:
+        res['vacuous'] = True; return res
+    qid = mk_id(qreal, qs)
+
+    def mkv(name):
+        return lambda m, failed: {'kind': 'custom', 'module': 'lookups', 'confirm': 'confirm_embedded', 'checks': failed, 'op': name, 'N': N, 'cfg': 'dev',
+                                  'pre': A.model_dict(m), 'role': name + '_embedded', 'args': {'k': m.eval(k, model_completion=True).as_long()}}
+
+    def run(fn, args, name, obl):
+        for o in call_all(eng, st, fn, args):
+            res['paths'] += 1; res['steps'] += o.state.steps
+            if o.kind == 'return': res['nontrivial'] += 1
+            check_obligations(eng, list(o.state.pc), obl(o), prefixes, res, mkv(name))
+
+    in_range = z3.Not(beyond)
+    for meth in ('get', 'get_mut'):
+        def obl(o, meth=meth):
+            if o.kind != 'return': return [('C11.%s_no_panic' % meth, F_)]
+            some, pay = iters.opt_parts(o.value)
+            ob = [('C11.%s_some_iff_in_range' % meth, some == in_range)]
+            sl = slot_of_ref(pay, acell) if pay is not None else None
+            ob.append(('C11.%s_addresses_slot_of_id' % meth, z3.Implies(some, (sl == qreal - 1) if sl is not None else F_)))
+            return ob
+        run(find_fn(prog, 'Arena', meth), [aref, qid], meth, obl)
+    def obl(o):
+        if o.kind != 'return': return [('C11.index_panics_only_out_of_range', z3.Not(in_range))]
+        sl = slot_of_ref(o.value, acell)
+        return [('C11.index_addresses_slot_of_id', z3.And(in_range, (sl == qreal - 1) if sl is not None else F_))]
+    run(find_trait_fn(prog, 'Arena', 'index', 'Index'), [aref, qid], 'index', obl)
+    # get_node_id of the node stored in modelled slot k
+    for kk in range(N):
+        # one modelled slot at a time (keeps the pointer-offset arithmetic free of the slot selector)
+        eng.solver.push(); eng.solver.add(z3.Not(beyond), k == kk + 1)
+        def obl(o, kk=kk):
+            if o.kind != 'return': return [('C11.get_node_id_no_panic', F_)]
+            some, pay = iters.opt_parts(o.value)
+            if pay is None: return [('C11.get_node_id_finds_own_node', F_)]
+            i_, s_ = iters.id_terms(pay)
+            return [('C11.get_node_id_finds_own_node', z3.And(some, i_ == A.at[kk] + 1, s_ == pre.stamp[kk]))]
+        run(find_fn(prog, 'Arena', 'get_node_id'), [aref, Ref(acell, (('f', 0), ('i', S(A.at[kk], 'usize'))))], 'get_node_id', obl)
+        eng.solver.pop()
+    # get_node_id_at(position)
+    livek = sel([pre.live(i) for i in range(N)], k)
+    def obl(o):
+        if o.kind != 'return': return [('C11.get_node_id_at_no_panic', F_)]
+        some, pay = iters.opt_parts(o.value)
+        ob = [('C11.get_node_id_at_some_iff_live_in_range', some == z3.And(in_range, livek))]
+        if pay is not None:
+            i_, s_ = iters.id_terms(pay)
+            ob.append(('C11.get_node_id_at_returns_current_id', z3.Implies(some, z3.And(i_ == qreal, s_ == sel(pre.stamp, k)))))
+        return ob
+    run(find_fn(prog, 'Arena', 'get_node_id_at'), [aref, Agg('NonZero', (S(qreal, 'usize'),))], 'get_node_id_at', obl)
+    def obl_count(o):
+        return [('C11.count_is_number_of_slots', zb(o.value) == A.vlen)] if o.kind == 'return' else [('C11.count_no_panic', F_)]
+    run(find_fn(prog, 'Arena', 'count'), [aref], 'count', obl_count)
+    res['coverage'] = {}
+    if eng.solver.check(*iters.PREFER) == z3.sat:
+        m = eng.solver.model()
+        res['samples'].append({'harness': 'lookups (embedded)', 'N': N, 'node_size': size, 'pre': A.model_dict(m)})
+    iters.PREFER = []
+    res['feas_queries'] = eng.nq; res['solver_time'] += eng.tq
+    res['wall'] = time.time() - t0
+    return res
+
+
+def confirm_embedded(prop, v):
+    import replay
+    pre = v['pre']; N = len(pre['slots']); at = pre['at']; vlen = pre['vlen']
+    detail = {}; status = 'not_reproduced'
+    for profile in ('dev', 'release'):
+        lines = replay.construct_script(pre)
+        n0 = len(lines)
+        for i in range(N): lines.append('lookup s%d' % (i + 1))
+        for p in [a + 1 for a in at] + [vlen + 1, vlen + 7]: lines.append('get_node_id_at %d' % p)
+        res = replay.run_script(lines, profile, timeout=120)
+        d = res.get(n0 - 1)
+        try: got = replay.parse_dump(d[1]) if d and d[0] == 'OK' else None
+        except ValueError: got = None
+        ok = bool(got) and replay.same_state(got, pre)
+        bad = []
+        for i in range(N):
+            r = res.get(n0 + i); s = pre['slots'][i]; p = at[i]
+            cur = 'NodeId{index1:%d,stamp:NodeStamp(%d)}' % (p + 1, s['stamp'])
+            exp = 'get=Some(%d) index=%d get_mut=Some(%d) get_node_id=%s get_node_id_at=%s usize=%d nz=%d display=%d count=%d slice_len=%d iter_count=%d' % (
+                p, p, p, cur, cur if s['stamp'] >= 0 else 'None', p + 1, p + 1, p + 1, vlen, vlen, vlen)
+            if r is None or r[0] != 'OK' or r[1].strip() != exp: bad.append('slot at %d: %s (expected %s)' % (p + 1, r, exp))
+        for j, p in enumerate([a + 1 for a in at] + [vlen + 1, vlen + 7]):
+            r = res.get(n0 + N + j)
+            exp = 'NodeId{index1:%d,stamp:NodeStamp(%d)}' % (p, pre['slots'][j]['stamp']) if (j < N and pre['slots'][j]['stamp'] >= 0) else 'None'
+            if r is None or r[0] != 'OK' or r[1].strip() != exp: bad.append('get_node_id_at %d: %s (expected %s)' % (p, r, exp))
+        detail[profile] = {'pre_ok': ok, 'bad': bad[:8]}
+        detail.setdefault('script_tail', lines[n0:])
+        if not ok:
+            if status == 'not_reproduced': status = 'unreachable'
+        elif bad: status = 'reproduced'
+    return status, detail
